@@ -177,3 +177,20 @@ prop("C04",
      "overtake buffered bytes; (H1) generated readers submit the schema they read to the check.",
      "That EVERY wire-affecting edit changes the JSON text (needs the semantics of encoding), MATLAB runtime header code, the C++ NDJSON header.",
      COMMON_ASSUME)
+
+prop("C05",
+     "Structural clauses about the change model that drives generated conversions (values across versions are out of reach): (EV1) TypeChange.Inverse is a "
+     "well-formed involution — type pair swapped, wrapped InnerChange inverted, index fields carried, match vectors exchanged, Inverse∘Inverse returns to "
+     "the same kind; (EV2) requiresExplicitConversion and the classifiers recurse through wrapper changes; (EV3) every TypeChange / DefinitionChange kind "
+     "the analyser constructs has a consumer case in the C++ conversion/compatibility emitters; (B3) the stream terminator is written through the "
+     "per-version switch, so a writer targeting an older version without that stream step writes nothing for it.",
+     "Correctness of any emitted conversion, defaulting of added parts, chains of versions, Python/MATLAB (they do not implement evolution).",
+     COMMON_ASSUME)
+
+prop("C06",
+     "Structural clauses of evolution verdicts: (EV3) classification completeness — every change kind the analyser can construct is exactly one of error, "
+     "warning, silent-by-design (table with reasons) and has a case in the validators; (EV2) wrapper changes are classified by recursion on their inner "
+     "change; (EV4) every field of the *Change structs that comparers fill is read by a validator or generator; (E2/E3/E5) no swallowed, unterminated or "
+     "dead-stored error in pkg/dsl; (M1) the map ranges of the evolution analyser are order-independent (deterministic verdicts).",
+     "Reflexivity and the verdict for a particular pair of models (behavioural); totality beyond the panic/error obligations listed.",
+     COMMON_ASSUME)
